@@ -437,10 +437,10 @@ def c16_seq(o1: int, k1: int, o2: int, k2: int, o3: int, k3: int, o4: int, k4: i
 
 def JOBS(tier):
     quick = tier == "quick"
-    t = 45 if quick else 600
+    t = 25 if quick else 600
     jobs = []
     for si in range(len(SHAPES)):
-        if quick and si in (3, 5, 6):
+        if quick and si in (0, 3, 5, 6):
             continue
         for oi, op in enumerate(OPS):
             if op in ("or", "ior", "ror"):
@@ -456,7 +456,7 @@ def JOBS(tier):
 
 
 EVIDENCE = {
-    "bounds": {"quick": "one operation (22 kinds, 3 source container types, empty and non-empty, for |,|=,reflected |) from 4 (thorough: 7) pre-state shapes "
+    "bounds": {"quick": "one operation (22 kinds, 3 source container types, empty and non-empty, for |,|=,reflected |) from 3 (thorough: 7) pre-state shapes "
                         "(<=2 names, <=3 values); operated-on names by symbolic index into an 8-name casing pool; ALL values "
                         "unbounded symbolic strings; sequences of 2 ops from the empty dict",
                "thorough": "same with sequences of 3 and 6x budget"},
